@@ -476,3 +476,128 @@ func (c *Ctx) rulesC13grace() {
 		c.undecided(fmt.Sprintf("C13.grace: only %d context cases found in handlerLoop (4 expected)", n))
 	}
 }
+
+// rulesC13send: nobody sends on a channel Dispose has closed.
+func (c *Ctx) rulesC13send(la *LockAnalysis) {
+	c.rule("C13.send", "a channel field of Machine that doDispose closes with the builtin close() is only ever sent on while holding a mutex the close site holds in W mode, behind a check of the disposed flag under that same mutex: a timeout report racing with Dispose must not panic with \"send on closed channel\" in the caller's goroutine (doDispose closes about 100ms before it cancels the context, so a select on ctx.Done() is not enough)")
+	dd := c.fn(pm + ":Machine.doDispose")
+	fDisposed := c.field(pm, "Machine", "disposed")
+	if dd == nil || la == nil {
+		return
+	}
+	type closeSite struct {
+		fld *types.Var
+		ins ssa.Instruction
+	}
+	var closes []closeSite
+	var visit func(f *ssa.Function)
+	visit = func(f *ssa.Function) {
+		for _, a := range f.AnonFuncs {
+			visit(a)
+		}
+		for _, b := range f.Blocks {
+			for _, ins := range b.Instrs {
+				call, ok := ins.(*ssa.Call)
+				if !ok {
+					continue
+				}
+				if bi, ok := call.Call.Value.(*ssa.Builtin); ok && bi.Name() == "close" {
+					if fld := loadOfField(call.Call.Args[0]); fld != nil {
+						if nt := namedOf(fieldOwner(call.Call.Args[0])); nt != nil && nt.Obj().Name() == "Machine" {
+							closes = append(closes, closeSite{fld, ins})
+						}
+					}
+				}
+			}
+		}
+	}
+	visit(dd)
+	if len(closes) < 1 {
+		c.undecided("C13.send: doDispose closes no Machine channel with close()")
+		return
+	}
+	n := 0
+	for _, cs := range closes {
+		// locks held in W at the close on every context
+		closerW := map[string]bool{}
+		first := true
+		for _, hr := range la.heldAt(cs.ins) {
+			cur := map[string]bool{}
+			for id, m := range hr.held {
+				if m == 'W' {
+					cur[id] = true
+				}
+			}
+			if first {
+				closerW, first = cur, false
+			} else {
+				for id := range closerW {
+					if !cur[id] {
+						delete(closerW, id)
+					}
+				}
+			}
+		}
+		for _, f := range c.Funcs {
+			if topFunc(f).Pkg == nil || relPkg(topFunc(f).Pkg.Pkg.Path()) != pm {
+				continue
+			}
+			for _, b := range f.Blocks {
+				for _, ins := range b.Instrs {
+					isSend := false
+					switch x := ins.(type) {
+					case *ssa.Send:
+						isSend = loadOfField(x.Chan) == cs.fld
+					case *ssa.Select:
+						for _, st := range x.States {
+							if st.Dir == types.SendOnly && loadOfField(st.Chan) == cs.fld {
+								isSend = true
+							}
+						}
+					}
+					if !isSend {
+						continue
+					}
+					n++
+					shared := ""
+					okAll := len(la.heldAt(ins)) > 0
+					for _, hr := range la.heldAt(ins) {
+						found := false
+						for id := range closerW {
+							if _, ok := hr.held[id]; ok {
+								found, shared = true, id
+							}
+						}
+						if !found {
+							okAll = false
+						}
+					}
+					key := fmt.Sprintf("%s: send on %s shares a lock with its close in doDispose", funcKey(f), cs.fld.Name())
+					c.check(okAll, "C13.send", key, ins.Pos(), fmt.Sprintf("the send holds none of the locks the close holds in W (%v): Dispose can close the channel between any check and the send", lockKeysOf(closerW)))
+					if okAll && fDisposed != nil {
+						flagged := false
+						for _, g := range guardsOf(b) {
+							if gAtomicLoadTruth("!disposed", fDisposed, false).Match(g) {
+								flagged = true
+							}
+						}
+						c.check(flagged, "C13.send", fmt.Sprintf("%s: send on %s is skipped once disposed (checked under %s)", funcKey(f), cs.fld.Name(), shortLock(shared)), ins.Pos(),
+							"no dominating check of the disposed flag: after the close the send panics")
+					}
+				}
+			}
+		}
+	}
+	if n < 1 {
+		c.undecided("C13.send: no send found on the channels doDispose closes")
+	}
+}
+
+func lockKeysOf(m map[string]bool) []string {
+	var out []string
+	for k := range m {
+		out = append(out, shortLock(k))
+	}
+	sort.Strings(out)
+	return out
+}
